@@ -47,6 +47,14 @@ def plan(tier, seed):
     shards.append({"name": "domains", "kind": "domains"})
     shards.append({"name": "fixtures", "kind": "fixtures",
                    "n": 3 if tier == "quick" else 40})
+    from . import w7
+    mods = ["test_onset.py", "test_tempo.py", "test_key.py", "test_alignment.py",
+            "test_pattern.py"]
+    if tier == "thorough":
+        mods += ["test_beat.py", "test_melody.py", "test_multipitch.py",
+                 "test_transcription.py", "test_transcription_velocity.py",
+                 "test_segment.py"]
+    shards += w7.plan(tier, modules=mods)
     return shards
 
 
@@ -165,6 +173,12 @@ def run_shard(spec, ctx):
         workloads.run_valid(ctx, mods, spec["n"], ctx.rng("valid"))
     elif spec["kind"] == "domains":
         wl_domains(ctx, mods)
+    elif spec["kind"] == "w7":
+        # the repository's regression fixtures are much larger than the generated
+        # inputs: raise the oracles' size bounds for these shards
+        ref_mon.SCALE = 400
+        from . import w7
+        w7.run(spec, ctx)
     else:
         wl_fixtures(spec, ctx, mods)
     n, problems = shim.fidelity_report()
